@@ -72,6 +72,25 @@ def gen(tier, seed):
     for a, b in pairs2:
         b0 = [p for p in base() if TX.SYM_FIELD[p[1]] not in (TX.SYM_FIELD.get(a), TX.SYM_FIELD.get(b))]
         cases.append(("N5", b0 + [('ncombo', a, fill_ntree(rng.choice(two), a, tg, rng)), ('ncombo', b, fill_ntree(rng.choice(two), b, tg, rng))]))
+    # N6: sibling nested statements of one type joined by one written operator (no enclosing braces), 2 and 3 members
+    # N7: two sibling nested statements (implicit conjunction, or a written operator) next to a simple component that holds
+    #     a combination with ANOTHER operator: the operator between the siblings is the one written between them, whatever
+    #     operators occur inside the other components
+    for sym in (syms if tier == "thorough" else [syms[(seed + k) % len(syms)] for k in range(4)]):
+        b0 = [p for p in base() if TX.SYM_FIELD[p[1]] != TX.SYM_FIELD.get(sym)]
+        for n in (2, 3):
+            for op in TX.OPS:
+                cases.append(("N6", b0 + [('nsib', sym, op, [simple_stmt(tg, rng, 2, combos=False) for _ in range(n)])]))
+    others = [x for x in TX.PAREN]
+    for k, sym2 in enumerate(others):
+        sym = syms[(seed + k) % len(syms)]
+        if TX.SYM_FIELD.get(sym) == TX.SYM_FIELD[sym2] or sym2 in ('A', 'I'):
+            continue
+        inner_op, sib_op = rng.sample(TX.OPS, 2)
+        extra = ('comp', sym2, '', '', ('comb', '', ('op', inner_op, ('leaf', tg.word()), ('leaf', tg.word())), ''))
+        b0 = [p for p in base() if TX.SYM_FIELD[p[1]] not in (TX.SYM_FIELD.get(sym), TX.SYM_FIELD[sym2])]
+        cases.append(("N7", b0 + [extra] + [('nested', sym, '', '', simple_stmt(tg, rng, 2, combos=False)) for _ in range(2)]))
+        cases.append(("N7", b0 + [extra, ('nsib', sym, sib_op, [simple_stmt(tg, rng, 2, combos=False) for _ in range(2)])]))
     # S: random statements with nesting (depth <= 3), nested statements containing combinations and nested statements
     for _ in range(60 if tier == "quick" else 1500):
         cases.append(("S", tg.stmt(rng.choice([1, 2, 3]), maxleaves=2, allow_pairs=False, nest_syms=TX.NEST_NONPROP)))
